@@ -12,6 +12,7 @@ import (
 	"path/filepath"
 	"regexp"
 	"sort"
+	"strings"
 	"sync"
 	"testing"
 	"time"
@@ -220,33 +221,16 @@ func runWorld(k *kase) {
 				}
 			}()
 		}
-		time.Sleep(40 * time.Millisecond) // watches / subscriptions established
-		for _, wk := range added {
-			a, e, _, err := utils.ParseWorkloadName(wk.Name)
-			if err != nil {
-				continue
-			}
-			var before map[string]bool
-			if k.Backend == "redis" {
-				before = map[string]bool{}
-				for _, key := range mini.Keys() {
-					before[key] = true
-				}
-			}
-			st.SetWorkloadStatus(ctx, &types.StatusMeta{ID: wk.ID, Running: true, Healthy: true, Appname: a, Entrypoint: e, Nodename: wk.Nodename}, 0) //nolint
-			if k.Backend == "redis" {                                                                                                                  // miniredis has no keyspace notifications: emit the one Redis would send for the key just written
-				for _, key := range mini.Keys() {
-					if !before[key] {
-						mini.Publish("__keyspace@0__:"+key, "set")
-					}
-				}
+		// watches / subscriptions established: miniredis reports its pattern subscriptions; etcd watches are
+		// created synchronously enough for the pause. (A fixed pause alone lost deliveries on a loaded machine:
+		// the status write overtook the PSUBSCRIBE.)
+		if k.Backend == "redis" {
+			for dl := time.Now().Add(3 * time.Second); mini.PubSubNumPat() < len(cols) && time.Now().Before(dl); {
+				time.Sleep(5 * time.Millisecond)
 			}
 		}
-		// wait until every stream has delivered at least what ListWorkloads returns for its filters (max 400 ms),
-		// then a little longer for deliveries that should not happen
-		deadline := time.Now().Add(400 * time.Millisecond)
-		for time.Now().Before(deadline) {
-			ok := true
+		time.Sleep(40 * time.Millisecond)
+		complete := func() bool {
 			for qi, c := range cols {
 				have := map[string]bool{}
 				for _, id := range c.snapshot() {
@@ -254,14 +238,48 @@ func runWorld(k *kase) {
 				}
 				for _, id := range listed[qi] {
 					if !have[id] {
-						ok = false
+						return false
 					}
 				}
 			}
-			if ok {
+			return true
+		}
+		// A status change is reported for every workload; if some stream has not delivered everything
+		// ListWorkloads returns for its filters within 400 ms the change is reported again (with the health flag
+		// flipped, so that it is a change) — up to 5 rounds: a stream that works delivers in the end however slow
+		// the machine is, a stream that filters wrongly never does.
+		for round := 0; round < 5; round++ {
+			for _, wk := range added {
+				a, e, _, err := utils.ParseWorkloadName(wk.Name)
+				if err != nil {
+					continue
+				}
+				var before map[string]bool
+				if k.Backend == "redis" {
+					before = map[string]bool{}
+					for _, key := range mini.Keys() {
+						before[key] = true
+					}
+				}
+				st.SetWorkloadStatus(ctx, &types.StatusMeta{ID: wk.ID, Running: true, Healthy: round%2 == 0, Appname: a, Entrypoint: e, Nodename: wk.Nodename}, 0) //nolint
+				if k.Backend == "redis" {                                                                                                                           // miniredis has no keyspace notifications: emit the one Redis would send for the key just written
+					for _, key := range mini.Keys() {
+						if !before[key] || round > 0 {
+							if round > 0 && !strings.HasSuffix(key, "/"+wk.ID) {
+								continue
+							}
+							mini.Publish("__keyspace@0__:"+key, "set")
+						}
+					}
+				}
+			}
+			deadline := time.Now().Add(400 * time.Millisecond)
+			for time.Now().Before(deadline) && !complete() {
+				time.Sleep(10 * time.Millisecond)
+			}
+			if complete() {
 				break
 			}
-			time.Sleep(10 * time.Millisecond)
 		}
 		time.Sleep(40 * time.Millisecond)
 		cancel()
